@@ -18,7 +18,38 @@ import PdshVerif.Dsh.Exit
 
 Theorems about the model `Opt/Wcoll.lean` of wcoll.c and of the `-w` / `^file` / `-` / WCOLL part of
 opt.c (tied to the code by checks/c10.py).  The model's result is the ordered list of expressions
-handed to the hostlist parser; what an expression expands to is not part of these statements.
+handed to the hostlist parser; what an expression expands to is not part of these statements (it is in the
+END-TO-END section, through C01's theorems).
+
+clause of the property text                              theorem(s)
+-------------------------------------------------------  -----------------------------------------------------------
+concatenation, in command-line order, of every source    `order_of_sources`, `assemble_refines`, `command_line_split`,
+                                                         `rendered_options_stand_for_sources`, `x_option_is_dash_args`
+every `^file`: one expression per line, `#` comments     `file_hosts_spec_partial`, `file_source_spec_partial` (reader =
+and surrounding blanks ignored                           `WcollSpec`), `include_line_restriction_forced` (why partial)
+`#include F` replaced in place by F's hosts              same (order of `exprs`), non-vacuity `demoFS`
+F looked up in the directory of the COMMAND-LINE file    `bare_include_in_top_directory`, `dot_names_are_bare`,
+                                                         `nested_includes_in_command_line_directory` (every depth),
+                                                         `stdin_includes_in_current_directory`, `dirname_is_dirOf`
+standard input for `-`                                   `assemble_refines` (`Source.stdin`; consumed once)
+WCOLL when no other source is given                      `wcoll_only_without_other_source`, `wcoll_fallback`,
+                                                         `no_source_no_list`, `empty_list_exit1`
+lines of ANY length read whole (no name split)           BYTE LEVEL: `glued_pieces_whole`, `whole_lines_bytes`,
+                                                         `byte_reader_is_line_reader` (fgets pieces of any buffer size,
+                                                         glued, = whole lines, for every content); `whole_lines`,
+                                                         `short_lines_whole`; as found: `fgets_splits(_witness)` (D12)
+a file reached a second time is skipped with a warning   `include_terminates`, `included_once`, `second_spelling_skipped`,
+rather than looping                                      `spellings_resolve_alike`, `opened_in_cache`
+an unreadable source is an error, not an empty list      `unreadable_is_error`, `unreadable_include_is_error`,
+                                                         `unresolved_include_is_error`, `error_is_final`
+(resources) no descriptor leaks                          `descriptors_balanced`, `open_files_le_depth`, `open_files_le_files`
+end to end (C10 ∘ C02 ∘ C01)                             `target_list_end_to_end` (+ `_is_cliWords`, `_is_cliFinalW`)
+
+The reader comes in three forms (`LineMode`): `.fgets n` (as found: every fgets piece parsed on its own),
+`.glued n` (as repaired, byte level: pieces glued until one holds a newline) and `.whole` (the specification's
+whole lines).  Every theorem with a `mode` parameter holds for all three; the length hypotheses mention
+`mode.cap`, which is `none` for `.glued` and `.whole`.  The compiled model the real pdsh is compared with
+executes `.glued LINEBUFSIZE` (or `.fgets LINEBUFSIZE` when the probe finds the old reader).
 
 Proved:  reading terminates for EVERY file system and include graph (`include_terminates`: the
 recursion fuel `|fs|+1` is never exhausted — well-founded on the number of files not yet in the
@@ -28,8 +59,8 @@ for stdin being consumed (`order_of_sources`);  WCOLL is consulted only when no 
 the list (`wcoll_only_without_other_source`);  an unreadable or missing source or included file is an
 error, and errors are final (`unreadable_is_error`, `unreadable_include_is_error`,
 `unresolved_include_is_error`);  lines that fit the buffer are handed over whole
-(`short_lines_whole`), with the repaired reader every line is (`whole_lines`).
-The full statement "file lines of any length are read whole" is FALSE of the unchanged code:
+(`short_lines_whole`), with the repaired reader every line is (`whole_lines`, `whole_lines_bytes`).
+The full statement "file lines of any length are read whole" is FALSE of the code as found:
 `fgets_splits` (general) and `fgets_splits_witness` (D12).
 `file_hosts_spec_partial` / `file_source_spec_partial`: on well-formed files whose lines fit the buffer
 the reader IS the specification `Opt/WcollSpec.lean` (same expressions in the same order, one warning
@@ -37,12 +68,14 @@ per skipped second reach, same error status); for the repaired reader without an
 END TO END (`target_list_end_to_end`): with C02's model of `wcoll_arg_process` / exclusion / regex filters and
 C01's `hostlist_create` / re-expansion, the hosts pdsh goes on with are the expansion of every target word in
 source order (files inlined, WCOLL iff no target source) minus the excluded names, filtered — in ONE decidable
-domain `targetDomain`; the empty list is refused with exit 1 (`no_source_no_list`, `empty_list_exit1`).
+domain `targetDomain`; starts from the argument TEXTS (`Seg.text`), the file BYTES (`fs`, any `mode` incl. the
+byte-level `.glued`) and the environment (`wenv`); the empty list is refused with exit 1 (`no_source_no_list`,
+`empty_list_exit1`).
 DESCRIPTORS (`descriptors_balanced`, `open_files_le_depth`): every stream the reader opens is closed when
 `wcoll_ctx_read_file` returns, one stream per include level at most (ghost counter, erasable).
-Not proved here: hostlist expansion (outside the end-to-end section);  dirname(3)/access(2) themselves;  the opt.c side is proved
-against its own characterisation (`order_of_sources`), the check compares it with the
-specification's `assemble` on every generated command line.
+Not proved here: a stdin segment (`^-`) inside `target_list_end_to_end` (C02's file table is a static lookup; stdin
+is covered by `assemble_refines`);  dirname(3)/access(2)/fgets(3) themselves (modelled);  NUL bytes in files;  the
+`:`-split of the command-line file's directory (`colon_dir_witness`, outside the domain).
 -/
 namespace PdshVerif.Props.C10
 open PdshVerif.Opt hiding Str Cfg Env Fixes
